@@ -150,12 +150,13 @@ def gen_plan(rng, tier, config, opts):
             op = rng.weighted([('GEN', 40), ('RESEED', 12), ('SEED', 6), ('BNRAND', 10), ('BNRANDMOD', 10), ('CTX', 6),
                                ('SNAP', 5), ('RESTORE', 5), ('INIT', 4), ('GENLOOP', 2)])
         if op == 'GEN':
+            bare = ' bare' if rng.chance(0.3) else ''      # a caller without a protected block around the request
             if rng.chance(0.04):
-                lines.append('GEN %d' % rng.choice(GEN_BIG))
+                lines.append('GEN %d%s' % (rng.choice(GEN_BIG), bare))
             elif rng.chance(0.2):
-                lines.append('GEN %d' % rng.randint(0, 300))
+                lines.append('GEN %d%s' % (rng.randint(0, 300), bare))
             else:
-                lines.append('GEN %d' % rng.choice(GEN_LENS))
+                lines.append('GEN %d%s' % (rng.choice(GEN_LENS), bare))
         elif op == 'GENLOOP':
             if not long_used and rng.chance(0.15 if tier == 'quick' else 0.4):
                 long_used = True
@@ -391,13 +392,18 @@ def check(plan, transcript, config, opts):
             elif name == 'GEN':
                 n = int(op[1])
                 if n > MAXREQ:
+                    bare = len(op) > 2 and op[2] == 'bare'
                     ln = next_line()
+                    if ln[0] == 'RB' and bare:
+                        # without a protected block the refused call returns to the observation wrapper, which
+                        # logs it; whether it was served is decided by the buffer and the state (next requests)
+                        ln = next_line()
                     if ln[0] == 'RB':
                         raise Bad('limit', 'a request of %d bytes (above the 65536-byte limit) was served' % n)
                     f = kv(ln)
                     out.evals += 1
                     out.fault('request-above-limit')
-                    if f['thrown'] != '1' or f['canary'] != '1' or f['untouched'] != '1':
+                    if (f['code'] != '1' if bare else f['thrown'] != '1') or f['canary'] != '1' or f['untouched'] != '1':
                         raise Bad('limit', 'a request of %d bytes was not refused cleanly (%s)' % (n, ' '.join(ln)))
                 else:
                     ln, nrb = consume_rbs('GEN', 'GEN')
